@@ -22,7 +22,7 @@ REAL = ['mpservice.mpserver.Server/AsyncServer.__enter__/__exit__', 'all Servlet
 STUB = ['thread scheduler', 'clock', 'asyncio selector']
 
 
-def hang_signature(kind, report, default):
+def hang_signature(kind, report, default, sc=None):
     """Names one specific family of exit hangs (see KNOWN_FINDINGS.jsonl, C11-exit-hang-pipe-full): the driver is inside
     Server.__exit__/__aexit__ (servlet.stop() -> join) while a worker or relay thread is blocked WRITING to a full pipe-backed
     queue whose reader has already stopped reading. Every other hang keeps its generic signature."""
@@ -38,12 +38,38 @@ def hang_signature(kind, report, default):
                     writers.add(fname)
                     break
     if root_in_exit and writers and any(why == 'write' for _i, _n, _s, why, _st in report):
-        return 'exit-hang:pipe-full-nobody-reading:' + '|'.join(sorted(writers))
+        # The recorded finding needs one of: a reader that stops at the FIRST end marker while other writers are still busy
+        # (a leaf with >=2 workers, an ensemble/switch relay), a batching worker (its collector emits the marker ahead of its own
+        # pending results), or the onboarding thread still holding abandoned inputs. A plain chain of single, non-batching workers
+        # whose onboarding thread is idle cannot hang this way on the recorded code, so such a hang gets a different signature.
+        vulnerable = '_onboard_input' in writers
+        if sc is not None:
+            for lf in servers.leaves(sc['tree']):
+                if lf.get('n', 1) > 1 or (lf.get('b') or 0) > 1 or lf.get('stream_threads'):
+                    vulnerable = True
+            if _has_relay(sc['tree']):
+                vulnerable = True
+        cls = 'first-end-marker-stops-reader' if vulnerable else 'single-writer-chain'
+        return 'exit-hang:pipe-full-nobody-reading:%s:%s' % (cls, '|'.join(sorted(writers)))
     return None
 
 
+def _has_relay(node):
+    if node['t'] in ('ens', 'switch'):
+        return True
+    return any(_has_relay(c) for c in node.get('ch', []))
+
+
 def gen(rng, tier):
-    tree = servers.gen_tree(rng, proc_ok=PROC_READY and rng.random() < 0.25)
+    if PROC_READY and rng.random() < 0.15:
+        # plain chain of single-worker process stages: the shape on which shutdown order and sentinel relay matter most
+        tree = {'t': 'seq', 'ch': [dict(servers.gen_leaf(rng, tg, proc_ok=False, batch_ok=False), t='process', n=1) for tg in 'AB'[:rng.choice([2, 2, 1])] ]}
+        for lf in tree['ch']:
+            lf.pop('stream_threads', None)
+        if len(tree['ch']) == 1:
+            tree = tree['ch'][0]
+    else:
+        tree = servers.gen_tree(rng, proc_ok=PROC_READY and rng.random() < 0.25)
     lvs = servers.leaves(tree)
     sites = [(li, wi) for li, lf in enumerate(lvs) for wi in range(lf.get('n', 1))]
     fail_site = rng.choice(sites) if rng.random() < 0.45 else None
@@ -61,6 +87,8 @@ def gen(rng, tier):
                     op = {'op': 'call', 'x': next(nxt), 'timeout': 100.0, 'bp': False}
                     if hist == 'timeouts' and rng.random() < 0.6:
                         op['timeout'] = max(1e-4, servers.mean_service_time(tree) * rng.choice([0.3, 0.8, 1.0]))
+                        if rng.random() < 0.5:
+                            op['x'] = [op['x'], 'p' * rng.choice([1000, 6000])]  # a late result bigger than a small pipe
                     ops.append(op)
                 callers.append({'ops': ops})
         elif hist == 'abandon':
@@ -73,13 +101,13 @@ def gen(rng, tier):
                                      'stop_after': rng.choice([1, 2, max(1, n // 2)])}]})
         cycles.append({'hist': hist, 'callers': callers})
     if any(c['hist'] == 'failing' for c in cycles):
-        allx = [op['x'] for c in cycles for cl in c['callers'] for op in cl['ops'] if op['op'] == 'call']
+        allx = [servers.root(op['x']) for c in cycles for cl in c['callers'] for op in cl['ops'] if op['op'] == 'call']
         if allx:
             rng.choice(lvs)['fail'] = {'xs': sorted(rng.sample(allx, min(len(allx), 2))), 'exc': 'ExcA'}
     sc = {'tree': tree, 'capacity': rng.choice([1, 4, 16, 64, 300]), 'async': rng.random() < 0.3, 'cycles': cycles,
           'fail_site': list(fail_site) if fail_site else None, 'fail_cycle': rng.randrange(len(cycles)) if fail_site else None,
-          'post': [next(nxt)]}
-    cfg = swarm(rng, racy=0.15, line=0.2, max_time=600.0, max_steps=1_500_000, pipe_cap=rng.choice([4096, 4096, 65536]))
+          'post': [next(nxt)] if rng.random() < 0.5 else []}  # without a final blocking call, abandoned work is still in flight at __exit__
+    cfg = swarm(rng, racy=0.15, line=0.2, max_time=600.0, max_steps=1_500_000, pipe_cap=rng.choice([512, 4096, 4096, 65536]))
     return {'scenario': sc, 'sim': cfg}
 
 
